@@ -66,7 +66,52 @@ def gen_maps(ctx):
     _MAPS['maps'] = MG.generate(V.REPO, V.COQ)
 
 
-PREBUILD = [gen_maps]
+def anchor_volume_model(ctx):
+    """PREBUILD (fail closed): VolumeModel.__init__ must obtain the conductivities as
+    `<model>.map.backward(<current property array>)`, the property array being read from the
+    model in the same loop body (`getattr(model, name)`), i.e. no cached / derived copy.  This is
+    the structural assumption behind cell_coeffs in Model/Maps.v."""
+    import ast
+    import os
+    src = open(os.path.join(V.REPO, 'emg3d', 'models.py')).read()
+    mod = ast.parse(src)
+    cls = [n for n in mod.body if isinstance(n, ast.ClassDef) and n.name == 'VolumeModel']
+    if len(cls) != 1:
+        raise MG.MapsUntranslatable('models.py: class VolumeModel not found')
+    init = [n for n in cls[0].body if isinstance(n, ast.FunctionDef) and n.name == '__init__']
+    if len(init) != 1:
+        raise MG.MapsUntranslatable('models.py: VolumeModel.__init__ not found')
+    mname = init[0].args.args[1].arg                      # the `model` parameter
+    loops = [n for n in ast.walk(init[0]) if isinstance(n, ast.For)]
+    ok = False
+    calls = []
+    for lp in loops:
+        current = set()                                   # names bound to getattr(model, <loop var>)
+        for n in ast.walk(lp):
+            if (isinstance(n, ast.Assign) and len(n.targets) == 1 and isinstance(n.targets[0], ast.Name)
+                    and isinstance(n.value, ast.Call) and isinstance(n.value.func, ast.Name)
+                    and n.value.func.id == 'getattr' and len(n.value.args) >= 2
+                    and isinstance(n.value.args[0], ast.Name) and n.value.args[0].id == mname):
+                current.add(n.targets[0].id)
+        for n in ast.walk(lp):
+            if (isinstance(n, ast.Call) and isinstance(n.func, ast.Attribute) and n.func.attr == 'backward'
+                    and isinstance(n.func.value, ast.Attribute) and n.func.value.attr == 'map'
+                    and isinstance(n.func.value.value, ast.Name) and n.func.value.value.id == mname):
+                calls.append(n.lineno)
+                a = n.args[0] if len(n.args) == 1 and not n.keywords else None
+                if isinstance(a, ast.Name) and a.id in current:
+                    ok = True
+                if (isinstance(a, ast.Call) and isinstance(a.func, ast.Name) and a.func.id == 'getattr'
+                        and isinstance(a.args[0], ast.Name) and a.args[0].id == mname):
+                    ok = True
+    if not ok:
+        raise MG.MapsUntranslatable(
+            'models.py: VolumeModel.__init__ does not compute the conductivities as '
+            f'{mname}.map.backward(<property read from {mname} in the same loop>) '
+            f'(map.backward calls found at lines {calls}); the coefficient model of C14 is not anchored')
+
+
+PREBUILD = [gen_maps, anchor_volume_model]
 
 
 def trees():
@@ -272,6 +317,199 @@ def check_coefficients(ctx, n, dis, hist, samples):
                             'case': brief, 'cell': list(idx),
                             'which': ['eta_x', 'eta_y', 'eta_z', 'zeta'][j],
                             'impl': str(iv), 'model': str(m)})
+    return nev
+
+
+# ------------- (c2) VolumeModel along histories on ONE Model object per mapping
+def _coeff_items(shape, vol, smu0, sval, aniso, st):
+    """Coq terms for eta_x, eta_y, eta_z, zeta of every cell from the CURRENT conductivities."""
+    import scipy.constants as sc
+    has_mu, has_eps = st['mu'] is not None, st['eps'] is not None
+    items = []
+    for idx in itertools.product(*[range(m) for m in shape]):
+        cx = st['x'][idx]
+        cy = (st['y'] if st['y'] is not None else st['x'])[idx]
+        cz = (st['z'] if st['z'] is not None else st['x'])[idx]
+        er = st['eps'][idx] if has_eps else 1.0
+        mr = st['mu'][idx] if has_mu else 1.0
+        args = (f"{V.qc(smu0)} {V.qc(sval)} {V.qc(sc.epsilon_0)} {V.coq_bool(has_eps)} {V.qc(vol[idx])}")
+        ex = f"(eta_of {args} {V.qc(cx)} {V.qc(er)})"
+        ey = f"(eta_of {args} {V.qc(cy)} {V.qc(er)})"
+        ez = f"(eta_of {args} {V.qc(cz)} {V.qc(er)})"
+        items.append(f"out_c {ex}; out_c (eta_y_sel {aniso}%Z {ex} {ey}); "
+                     f"out_c (eta_z_sel {aniso}%Z {ex} {ez}); "
+                     f"out_c (zeta_of {V.coq_bool(has_mu)} {V.qc(vol[idx])} {V.qc(mr)})")
+    return "Eval vm_compute in [" + ';\n '.join(items) + "]."
+
+
+def _dyadic_cond(rng, shape):
+    a = np.zeros(shape)
+    for idx in itertools.product(*[range(m) for m in shape]):
+        a[idx] = rng.randint(1, 255) / 16.0 * 2.0 ** rng.randint(-20, 20)
+    return a
+
+
+def _rand_block(rng, shape):
+    blk = []
+    for m in shape:
+        lo = rng.randint(0, m - 1)
+        hi = rng.randint(lo + 1, m)
+        blk.append(slice(lo, hi))
+    return tuple(blk)
+
+
+def gen_vm_history(rng, ci):
+    """(map, anisotropy case) cycle through all 24 combinations; one Model object; ops edit it
+    in place through the getter view ('view'), through the setter ('setter'), or the mu_r /
+    epsilon_r arrays; a VolumeModel is built before the first and after every op."""
+    name = NAMES[ci % 6]
+    aniso = (ci // 6) % 4
+    shape = rng.choice([(2, 1, 2), (2, 2, 1), (1, 2, 2), (2, 2, 2), (3, 1, 1)])
+    st = {'x': _dyadic_cond(rng, shape),
+          'y': _dyadic_cond(rng, shape) if aniso in (1, 3) else None,
+          'z': _dyadic_cond(rng, shape) if aniso in (2, 3) else None,
+          'mu': np.array(K.rand_arr(rng, shape, False, pos=True), float) if rng.random() < 0.5 else None,
+          'eps': np.array(K.rand_arr(rng, shape, False, pos=True), float) if rng.random() < 0.5 else None}
+    defined = [k for k in ('x', 'y', 'z') if st[k] is not None]
+    ops = []
+    nops = rng.randint(2, 4)
+    for k in range(nops):
+        if k == 0:
+            kind, key = 'view', rng.choice(defined)
+        else:
+            kind = rng.choice(['view', 'view', 'setter', 'setter_scalar', 'view_other'])
+            key = rng.choice(defined)
+            if kind == 'view_other':
+                other = [q for q in ('mu', 'eps') if st[q] is not None]
+                if not other:
+                    kind = 'view'
+                else:
+                    key = rng.choice(other)
+        blk = _rand_block(rng, shape)
+        if key in ('mu', 'eps'):
+            new = np.array(K.rand_arr(rng, shape, False, pos=True), float)
+        else:
+            new = _dyadic_cond(rng, shape)
+        if kind == 'setter_scalar':
+            new = np.full(shape, new.ravel()[0])
+        ops.append((kind, key, blk, new))
+    lap = rng.random() < 0.4
+    freq = -K.dy_pos(rng) if lap else K.dy_pos(rng)
+    hs = [[K.dy_pos(rng) for _ in range(m)] for m in shape]
+    return dict(map=name, aniso=aniso, shape=shape, st=st, ops=ops, freq=freq, hs=hs)
+
+
+PKEY = {'x': 'property_x', 'y': 'property_y', 'z': 'property_z', 'mu': 'mu_r', 'eps': 'epsilon_r'}
+
+
+def describe_history(h):
+    return {'mapping': h['map'], 'aniso': h['aniso'], 'shape': list(h['shape']), 'freq': h['freq'],
+            'hs': h['hs'],
+            'initial_conductivity': {k: (None if v is None else [float.hex(float(x)) for x in v.ravel()])
+                                     for k, v in h['st'].items()},
+            'ops': [{'kind': kd, 'property': PKEY[key],
+                     'block': [[b.start, b.stop] for b in blk],
+                     'new_conductivity_or_value': [float.hex(float(x)) for x in new[blk].ravel()]}
+                    for kd, key, blk, new in h['ops']]}
+
+
+def run_vm_history(h, fresh=False):
+    """Run the history on ONE Model object; return the list of coefficient arrays after
+    construction and after each op, plus the states (current conductivities).  With fresh=True
+    every VolumeModel is instead built from a NEW Model holding copies of the current arrays."""
+    import emg3d
+    t = trees()[h['map']]
+    fwd = np.vectorize(lambda s: MG.evaluate(t['forward'], float(s), t))
+    grid = emg3d.TensorMesh(h['hs'], (0, 0, 0))
+    sfield = emg3d.Field(grid, frequency=h['freq'])
+    st = {k: (None if v is None else v.copy()) for k, v in h['st'].items()}
+
+    def build():
+        return emg3d.Model(grid, property_x=fwd(st['x']),
+                           property_y=None if st['y'] is None else fwd(st['y']),
+                           property_z=None if st['z'] is None else fwd(st['z']),
+                           mu_r=None if st['mu'] is None else st['mu'].copy(),
+                           epsilon_r=None if st['eps'] is None else st['eps'].copy(),
+                           mapping=h['map'])
+
+    def coeffs(m):
+        vm = emg3d.models.VolumeModel(m, sfield)
+        return [np.array(vm.eta_x), np.array(vm.eta_y), np.array(vm.eta_z), np.array(vm.zeta)]
+    outs, states = [], []
+    with warnings.catch_warnings(), np.errstate(all='ignore'):
+        warnings.simplefilter('ignore')
+        model = build()
+        outs.append(coeffs(build() if fresh else model))
+        states.append({k: (None if v is None else v.copy()) for k, v in st.items()})
+        for kind, key, blk, new in h['ops']:
+            vals = new if key in ('mu', 'eps') else fwd(new)
+            if kind in ('view', 'view_other'):
+                st[key][blk] = new[blk]
+                getattr(model, PKEY[key])[blk] = vals[blk]          # in place, through the getter
+            elif kind == 'setter':
+                st[key] = new.copy()
+                setattr(model, PKEY[key], vals.copy())
+            else:                                                   # setter_scalar
+                st[key] = new.copy()
+                setattr(model, PKEY[key], float(vals.ravel()[0]))
+            outs.append(coeffs(build() if fresh else model))
+            states.append({k: (None if v is None else v.copy()) for k, v in st.items()})
+    return outs, states, sfield
+
+
+def check_vm_histories(ctx, n, dis, hist, samples):
+    rng = ctx.rng
+    hs = [gen_vm_history(rng, ci) for ci in range(n)]
+    runs, texts = [], []
+    for ci, h in enumerate(hs):
+        try:
+            outs, states, sfield = run_vm_history(h)
+        except Exception as e:
+            dis.append({'what': 'history on one Model object raised', 'case': describe_history(h),
+                        'impl': repr(e), 'model': 'all values valid'})
+            runs.append(None)
+            continue
+        vol = np.multiply.outer(np.multiply.outer(h['hs'][0], h['hs'][1]), h['hs'][2])
+        sval, smu0 = complex(sfield.sval), complex(sfield.smu0)
+        lines = [K.CASE_HEADER, "From V Require Import Model.VolumeModel."]
+        for st in states:
+            lines.append(_coeff_items(h['shape'], vol, smu0, sval, h['aniso'], st))
+        texts.append((f"c14_vh_{ci}", '\n'.join(lines) + '\n'))
+        runs.append(outs)
+    res = V.coq_eval_many(texts)
+    nev = 0
+    for ci, h in enumerate(hs):
+        if runs[ci] is None:
+            continue
+        rc, out = res[f"c14_vh_{ci}"]
+        if rc != 0:
+            dis.append({'what': 'VolumeModel model evaluation failed (history)', 'log': out[-1500:]})
+            continue
+        answers = V.eval_answers(out)
+        if ci < 2:
+            samples.append(describe_history(h))
+        for step, (ans, impl) in enumerate(zip(answers, runs[ci])):
+            nev += 1
+            kd = 'construct' if step == 0 else h['ops'][step - 1][0]
+            hist['vm-history:' + kd] = hist.get('vm-history:' + kd, 0) + 1
+            ref = [complex(float(a), float(b)) for a, b in V.parse_cpairs(ans)]
+            k = 0
+            bad = None
+            for idx in itertools.product(*[range(m) for m in h['shape']]):
+                for j in range(4):
+                    m = ref[k]
+                    k += 1
+                    iv = complex(impl[j][idx])
+                    if bad is None and abs(iv - m) > 1e-12 * max(abs(m), 1e-300):
+                        bad = (idx, j, iv, m)
+            if bad:
+                idx, j, iv, m = bad
+                dis.append({'what': 'VolumeModel built after step %d (%s) of a history on one Model object '
+                                    'differs from the coefficients of the CURRENT conductivities' % (step, kd),
+                            'case': describe_history(h), 'step': step, 'cell': list(idx),
+                            'which': ['eta_x', 'eta_y', 'eta_z', 'zeta'][j],
+                            'impl': str(iv), 'model': str(m)})
+                break
     return nev
 
 
@@ -539,6 +777,7 @@ def correspondence(ctx):
     n_m = check_methods(ctx, 400 if ctx.thorough else 60, dis, hist)
     n_t = check_twins(ctx, 200 if ctx.thorough else 40, dis)
     n_c = check_coefficients(ctx, 32 if ctx.thorough else 8, dis, hist, samples)
+    n_c += check_vm_histories(ctx, 96 if ctx.thorough else 24, dis, hist, samples)
     n_h, nt = check_histories(ctx, 3000 if ctx.thorough else 400, dis, hist, samples)
     n_s = check_selection(ctx, dis)
     return {
@@ -548,7 +787,11 @@ def correspondence(ctx):
                 "derivative_chain vs evaluation of the extracted tree (1e-12); twins: dyadic +- values vs "
                 "vm_compute on Q; coefficients: random 1..2^3 grids, anisotropy case cycling, mu_r/eps_r/"
                 "frequency-or-Laplace random, conductivities = 8-bit mantissa * 2^(-20..20), six maps each, "
-                "vs eta_of/zeta_of on Q (1e-12 rel); histories: construct (5% unknown map name, each given "
+                "vs eta_of/zeta_of on Q (1e-12 rel); VolumeModel histories: ONE Model object per (map, anisotropy "
+                "case) [all 24 combinations], VolumeModel built after construction and after each of 2..4 edits "
+                "(in place through the getter view on a random block -- always the first edit --, setter with "
+                "array / scalar, in-place mu_r/epsilon_r), every build compared with eta_of/zeta_of on the "
+                "CURRENT conductivities; histories: construct (5% unknown map name, each given "
                 "property malformed with p=0.12) then 0..5 assignments (malformed with p=0.4: zero, -0.0, "
                 "negative, nan, +-inf; assignments to None properties); distinct non-trivial = distinct "
                 "(map, outcome sequence, None pattern) with at least one rejection",
@@ -700,10 +943,44 @@ def search_validation(rng, n):
     return None
 
 
+def search_history_case(seed):
+    """History independence, implementation only: VolumeModel built from ONE Model object along
+    a history of edits must equal VolumeModel built from a FRESH Model holding the same values."""
+    import random
+    rng = random.Random(seed)
+    h = gen_vm_history(rng, rng.randint(0, 23))
+    try:
+        a, _, _ = run_vm_history(h, fresh=False)
+        b, _, _ = run_vm_history(h, fresh=True)
+    except Exception as e:
+        return {'signature': 'history on one Model object with valid values raised', 'kind': 'history',
+                'seed': seed, 'history': describe_history(h), 'observed': repr(e)}
+    for step, (ca, cb) in enumerate(zip(a, b)):
+        for which, x, y in zip(('eta_x', 'eta_y', 'eta_z', 'zeta'), ca, cb):
+            if np.max(np.abs(x - y) / np.abs(y)) > 1e-12:
+                kd = 'construct' if step == 0 else h['ops'][step - 1][0]
+                k = int(np.argmax(np.abs(x - y) / np.abs(y)))
+                return {'signature': f'VolumeModel.{which} after an edit ({kd}) differs from that of a fresh '
+                                     f'model with the same values',
+                        'kind': 'history', 'seed': seed, 'step': step, 'history': describe_history(h),
+                        'flat_index': k, 'observed': repr(complex(x.ravel()[k])),
+                        'required': repr(complex(y.ravel()[k]))}
+    return None
+
+
+def search_history(rng, n):
+    for _ in range(n):
+        h = search_history_case(rng.randint(0, 2 ** 40))
+        if h:
+            return h
+    return None
+
+
 def search(ctx, broken):
     rng = ctx.rng
     hits = []
-    for f, args in ((search_validation, (rng, 300 if ctx.thorough else 80)),
+    for f, args in ((search_history, (rng, 200 if ctx.thorough else 60)),
+                    (search_validation, (rng, 300 if ctx.thorough else 80)),
                     (search_maps, (rng, 200 if ctx.thorough else 60)),
                     (search_coeffs, (rng, 40 if ctx.thorough else 12))):
         try:
@@ -741,6 +1018,8 @@ def replay(ctx, payload):
         return abs(g[0] - d) <= 1e-9 * max(abs(d), 1e-300)
     if kind in ('coeffs', 'solve'):
         return search_coeffs(rng, 12, solve=(kind == 'solve')) is None
+    if kind == 'history':
+        return search_history_case(int(fi['seed'])) is None
     if kind == 'validation':
         return search_validation(rng, 300) is None
     return False
